@@ -65,10 +65,27 @@ def run_case(case):
             shutil.copy(pki + '/right.root.pem', case['_dir'] + '/root-2025.pem')
             shutil.copy(pki + '/wrong.root.pem', case['_dir'] + '/root-2026.pem')
             os.symlink('root-2025.pem', case['_dir'] + '/own-root.pem')
+        elif case['withdraw'] == 'wrong-root-in-place':
+            # both roots padded with newlines to one length: the later replacement changes neither the size nor the dates of the file
+            a, b = open(pki + '/right.root.pem', 'rb').read(), open(pki + '/wrong.root.pem', 'rb').read()
+            n = max(len(a), len(b)) + 1
+            open(case['_dir'] + '/own-root.pem', 'wb').write(a + b'\n' * (n - len(a)))
+            open(case['_dir'] + '/replacement.pem', 'wb').write(b + b'\n' * (n - len(b)))
         else:
             shutil.copy(pki + '/right.root.pem', case['_dir'] + '/own-root.pem')
 
     def path_of(src):
+        if src in ('glob-decoy', 'glob-right'):
+            # file names made of characters a glob would interpret: the path names that very file, whatever sits next to it
+            import shutil as _sh
+            gd = pki + '/globnames'
+            os.makedirs(gd, exist_ok=True)
+            for name, content in (('ca[1].pem', 'wrong'), ('ca1.pem', 'right'), ('r[io]ght-*.pem', 'right'), ('ca?.pem', 'wrong'), ('caX.pem', 'right')):
+                if not os.path.exists(gd + '/' + name):
+                    tmpn = '%s/.tmp%d-%d' % (gd, os.getpid(), case['i'])
+                    _sh.copy('%s/%s.root.pem' % (pki, content), tmpn)
+                    os.replace(tmpn, gd + '/' + name)
+            return gd + '/' + ({'glob-decoy': ['ca[1].pem', 'ca?.pem'][case['i'] % 2], 'glob-right': 'r[io]ght-*.pem'}[src])
         if src == 'right' and case.get('withdraw'):
             return case['_dir'] + '/own-root.pem'      # a private copy, replaced while the daemon runs
         return {'right': pki + '/right.root.pem', 'wrong': pki + '/wrong.root.pem', 'missing': pki + '/does-not-exist.pem',
@@ -122,7 +139,7 @@ def run_case(case):
     for src in case.get('included_globals') or []:
         if src != 'none':
             eff_global = src
-    first_of = {'bundle-rw': 'right', 'bundle-wr': 'wrong'}
+    first_of = {'bundle-rw': 'right', 'bundle-wr': 'wrong', 'glob-decoy': 'wrong', 'glob-right': 'right'}
     sources = [first_of.get(x, x) for x in (case['cli'], case['endpoint'], eff_global)]
     broken = [s for s in sources if s in ('missing', 'empty', 'garbage', 'text')]
     chain_ok = case['server'] in ('valid', 'valid-inter', 'other-root', 'unlisted-root')      # right name, currently valid
@@ -147,6 +164,13 @@ def run_case(case):
                     elif case['withdraw'] == 'relink':
                         os.symlink('root-2026.pem', tmp)
                         os.replace(tmp, f)
+                    elif case['withdraw'] == 'wrong-root-in-place':
+                        # rewritten in place, same length, dates put back (cp -p / rsync -t style)
+                        st = os.stat(f)
+                        data = open(case['_dir'] + '/replacement.pem', 'rb').read()
+                        with open(f, 'r+b') as fh:
+                            fh.write(data)
+                        os.utime(f, ns=(st.st_atime_ns, st.st_mtime_ns))
                     else:
                         src = {'garbage': pki + '/garbage.pem', 'empty': pki + '/empty.pem', 'wrong-root': pki + '/wrong.root.pem'}[case['withdraw']]
                         shutil.copy(src, tmp)
@@ -282,12 +306,22 @@ def gen(tier, r, pki):
     henv.append({'server': 'valid', 'by_name': True, 'cli': 'none', 'endpoint': 'right', 'global': 'none', 'hook_env': ('global', 'SSL_CERT_FILE')})
     # a root file that was good when the daemon started and is withdrawn, damaged or replaced while it runs
     wd = []
-    for kind in ('removed', 'garbage', 'empty', 'wrong-root', 'relink'):
+    for kind in ('removed', 'garbage', 'empty', 'wrong-root', 'relink', 'wrong-root-in-place'):
         for where in ('cli', 'endpoint', 'global'):
             c = {'server': 'valid', 'by_name': True, 'cli': 'none', 'endpoint': 'none', 'global': 'none', 'withdraw': kind}
             c[where] = 'right'
             wd.append(c)
-    cases = cases + broken + leak + henv + wd + incl + multi
+    # paths made of glob characters, with and without a sibling file the pattern would match
+    gl = []
+    for where in ('endpoint', 'global', 'cli'):
+        for by_name in (True, False):
+            c = {'server': 'valid', 'by_name': by_name, 'cli': 'none', 'endpoint': 'none', 'global': 'none'}
+            c[where] = 'glob-decoy'
+            gl.append(c)
+        c = {'server': 'valid', 'by_name': True, 'cli': 'none', 'endpoint': 'none', 'global': 'none'}
+        c[where] = 'glob-right'
+        gl.append(c)
+    cases = cases + broken + leak + henv + wd + incl + multi + gl
     for i, c in enumerate(cases):
         c['i'] = i
         c['pki'] = pki
@@ -336,7 +370,7 @@ def run(tier):
     chk.exhaustive = (tier == 'thorough')
     chk.rule = ('(server chain: valid, valid through an intermediate, unlisted root, other host name, expired, not yet valid) x (URL by name / by IP) x '
                 '(--root-cert, endpoint root_certificates, global root_certificates each carrying nothing / the right root / a wrong root)%s, plus missing / empty / '
-                'malformed root files at each source, two endpoints of which only one lists the root, CA bundles named in the hooks\' environment tables (SSL_CERT_FILE / SSL_CERT_DIR at global, certificate and account level), root files withdrawn / damaged / replaced / re-linked while the daemon runs, the global list redefined in included files, root files holding two certificates, the same path listed twice before a broken file; distinct = combinations for which the TLS mock CA saw a '
+                'malformed root files at each source, two endpoints of which only one lists the root, CA bundles named in the hooks\' environment tables (SSL_CERT_FILE / SSL_CERT_DIR at global, certificate and account level), root files withdrawn / damaged / replaced / re-linked while the daemon runs, the global list redefined in included files, root files replaced in place without a change of size or dates, root file names made of glob characters next to files the pattern would match, root files holding two certificates, the same path listed twice before a broken file; distinct = combinations for which the TLS mock CA saw a '
                 'handshake attempt or a request' % ('' if tier == 'thorough' else ' (stratified sample)'))
     chk.assumptions = ['the system trust store does not contain the generated roots', 'a request logged by the TLS mock CA implies a completed handshake']
     code = chk.finish()
